@@ -21,7 +21,7 @@ EXPLANATION = (
 )
 ASSUMPTIONS = [
     "rustc's MIR construction and callee resolution are correct (nightly 1.97, -Zmir-opt-level=0)",
-    "unwind/cleanup edges are ignored: a panic is a different failure, covered by C13's audit",
+    "unwind/cleanup edges are ignored; a panic below optimize() would write to the real stderr and end the process, so C10.NOPANIC re-runs C13's panic-site audit restricted to what optimize() reaches (mechanical discharge classes plus the audited table of rules/p_c13.py, which is read-and-justified, not proved)",
     "std's Vec<u8>/String/HashMap operations perform no process-level I/O",
     "numeric-core loops (BigNum) terminate for the reasons listed per loop in TERM's audited table",
 ]
@@ -652,3 +652,14 @@ RULES = [
     ("C10.SINKS", "effect sinks below optimize() only behind the guarded pop routine; writers are in-memory", rule_sinks),
     ("C10.TERM", "every loop below optimize() has a termination argument; recursion is structural", rule_term),
 ]
+
+
+def rule_nopanic(ctx, R):
+    """a panic inside optimize() is an effect (message on the real stderr, process ends): every panic-capable site
+    optimize() can reach is mechanically discharged or in C13's audited table"""
+    from . import p_c13
+    n = p_c13.rule_panic(ctx, R, roots=[OPTIMIZE])
+    R.floor("sites_below_optimize", n or 0, 47, "panic-capable sites reachable from optimize()")
+
+
+RULES.append(("C10.NOPANIC", "no unaudited panic-capable site below optimize() (a panic there writes to the real stderr and ends the process)", rule_nopanic))
